@@ -1,4 +1,7 @@
-(* modelrun: moves bytes between files and the extracted Gallina functions; no logic here. *)
+(* modelrun: moves bytes between files and the extracted Gallina functions; no logic here.
+   The case file has one case per line and every command judges cases independently
+   (Model/RunBase.v: run_cases), so the file is handed to the extracted function line by line:
+   memory stays proportional to the longest line instead of the whole file. *)
 let explode (s : string) : char list =
   let rec go i acc = if i < 0 then acc else go (i - 1) (Stdlib.String.get s i :: acc) in
   go (Stdlib.String.length s - 1) []
@@ -8,15 +11,17 @@ let implode (l : char list) : string =
   Stdlib.List.iter (Buffer.add_char b) l;
   Buffer.contents b
 
-let read_file path =
-  let ic = open_in_bin path in
-  let n = in_channel_length ic in
-  let s = really_input_string ic n in
-  close_in ic; s
-
 let () =
   if Array.length Sys.argv < 3 then (prerr_endline "usage: modelrun <cmd> <file>"; exit 2);
   let cmd = Sys.argv.(1) in
-  let input = explode (read_file Sys.argv.(2)) in
-  let out = Cmds.dispatch cmd input in
-  print_string (implode out)
+  let ic = open_in_bin Sys.argv.(2) in
+  (try
+     while true do
+       let line = input_line ic in
+       if Stdlib.String.length line > 0 then begin
+         let out = Cmds.dispatch cmd (explode line) in
+         print_string (implode out)
+       end
+     done
+   with End_of_file -> ());
+  close_in ic
